@@ -20,7 +20,7 @@ PROPERTIES: dict[str, dict] = {
         "assumptions": COMMON_ASSUMPTIONS + ["bliss returns a canonical form for colour-isomorphic graphs", "igraph index convention table per version (spec.py)"],
     },
     "C02": {
-        "rules": ["R-CODEC", "R-KEYS", "R-ELEMTABLE", "R-LEX", "R-ATTRREAD", "R-REBUILD", "R-EXPRESS", "R-SYMZ"],
+        "rules": ["R-CODEC", "R-KEYS", "R-ELEMTABLE", "R-LEX", "R-ATTRREAD", "R-REBUILD", "R-EXPRESS", "R-SYMZ", "R-RECMERGE"],
         "technique": "structural losslessness rules on serializer/parser + automata check of unique tokenisation",
         "explanation": "Necessary conditions of injectivity, each decided over all code paths: every edge / labelled atom / atom is emitted "
                        "(no filter), indices are label+1 and decoded as index-1, numbering is by atomic number first so the formula identifies "
@@ -30,7 +30,7 @@ PROPERTIES: dict[str, dict] = {
         "assumptions": COMMON_ASSUMPTIONS,
     },
     "C03": {
-        "rules": ["R-CODEC", "R-KEYS", "R-ELEMTABLE", "R-GRAM3", "R-SHAPE", "R-ZERO", "R-BLISS", "R-FLOW-CANON", "R-FLOW-SERIAL", "R-BIJ", "R-REBUILD", "R-EXPRESS", "R-ATTRREAD", "R-REJECT", "R-GLOBAL"],
+        "rules": ["R-CODEC", "R-KEYS", "R-ELEMTABLE", "R-GRAM3", "R-SHAPE", "R-ZERO", "R-BLISS", "R-FLOW-CANON", "R-FLOW-SERIAL", "R-BIJ", "R-REBUILD", "R-EXPRESS", "R-ATTRREAD", "R-REJECT", "R-GLOBAL", "R-RECMERGE"],
         "thorough_rules": ["R-LIBSRC"],
         "technique": "codec-agreement rules + language inclusion (emitted ⊆ grammar) by automata + the C01 flow proof for the fixed-point half",
         "explanation": "Serializer/parser agreement (offsets, key tables, numbering by atomic number, stable sort), emitted strings are sentences of the "
@@ -111,7 +111,7 @@ PROPERTIES: dict[str, dict] = {
         "assumptions": COMMON_ASSUMPTIONS,
     },
     "C12": {
-        "rules": ["R-EFFECT", "R-COPY", "R-BIJ", "R-GLOBAL", "R-REBUILD", "R-ATTRREAD"],
+        "rules": ["R-EFFECT", "R-COPY", "R-BIJ", "R-GLOBAL", "R-REBUILD", "R-ATTRREAD", "R-RECMERGE", "R-CARRY"],
         "thorough_rules": ["R-LIBSRC"],
         "technique": "effect analysis (mutation of arguments / shared objects) + bijection proof of relabel maps",
         "explanation": "canonicalize_molecule mutates nothing reachable from its argument; serialize_molecule writes only the scratch key `explored`, "
